@@ -73,6 +73,114 @@ def state_of(u, spec):
     return render(u.enc_spec(spec))
 
 
+class Conflict(Exception):
+    pass
+
+
+def ref_lub_paths(x, y, pred, nil, ns, insertion, prefix=False):
+    """leaf paths of the least common suffix of two trees, from the documented rules (independent of
+    optree's engine): a leaf gives way to the other tree's subtree; nodes must agree in type (the three
+    dict kinds are interchangeable), arity / key set / namedtuple class / custom metadata; children are
+    paired by position or key; the first tree's key order and entries are kept"""
+    from collections import OrderedDict, defaultdict, deque
+    from universe import NT_CLASSES, SS_CLASSES, USER_CLASSES
+    from props.C02 import ref_total_order, registered
+    from gen import STD_REGISTRY
+
+    def is_leaf(v):
+        if pred is not None and pred(v):
+            return True
+        if v is None:
+            return nil
+        t = type(v)
+        if t in (tuple, list, deque, dict, OrderedDict, defaultdict) or t in NT_CLASSES or t in SS_CLASSES:
+            return False
+        if t in USER_CLASSES:
+            return not registered(0, t.cls_id, ns)
+        return True
+
+    def reg_for(cls_id):
+        best = None
+        for rns, ck, c, ek, mode in STD_REGISTRY:
+            if ck == 0 and c == cls_id and rns in ('', ns):
+                if rns == ns and ns != '':
+                    return (rns, mode)
+                best = (rns, mode)
+        return best
+
+    def entries_of(v):
+        t = type(v)
+        if t in (dict, defaultdict):
+            return list(v) if insertion else ref_total_order(v)
+        if t is OrderedDict:
+            return list(v)
+        if t in USER_CLASSES:
+            mode = reg_for(t.cls_id)[1]
+            n = len(v.children)
+            if mode == 'named':
+                return [f'c{i}' for i in range(n)]
+            if mode == 'shifted':
+                return [10 + i for i in range(n)]
+            return list(range(n))
+        return list(range(len(v)))
+
+    def child(v, e, i):
+        t = type(v)
+        if t in (dict, defaultdict, OrderedDict):
+            return v[e]
+        if t in USER_CLASSES:
+            return v.children[i]
+        return v[i]
+
+    def single(v, path, out):
+        if is_leaf(v):
+            out.append(path)
+            return
+        if v is None:
+            return
+        for i, e in enumerate(entries_of(v)):
+            single(child(v, e, i), path + (e,), out)
+
+    def merge(a, b, path, out):
+        if is_leaf(a):
+            single(b, path, out)
+            return
+        if is_leaf(b):
+            if prefix:
+                raise Conflict       # `a` has a node where `b` has a leaf: not a prefix
+            single(a, path, out)
+            return
+        if a is None or b is None:
+            if a is None and b is None:
+                return
+            raise Conflict
+        ta, tb = type(a), type(b)
+        dicts = (dict, OrderedDict, defaultdict)
+        if ta in dicts:
+            if tb not in dicts or set(a) != set(b):
+                raise Conflict
+        elif ta is deque and tb is deque:
+            if len(a) != len(b):
+                raise Conflict
+        elif ta is not tb:
+            raise Conflict
+        elif ta in USER_CLASSES:
+            if len(a.children) != len(b.children) or a.md != b.md:
+                raise Conflict
+        elif len(a) != len(b):
+            raise Conflict
+        ea = entries_of(a)
+        for i, e in enumerate(ea):
+            if ta in dicts:
+                merge(a[e], b[e], path + (e,), out)
+            else:
+                merge(child(a, e, i), child(b, e, i), path + (e,), out)
+
+    out = []
+    merge(x, y, (), out)
+    return out
+
+
 def oracle(impl, o):
     import optree
     u = impl.u
@@ -99,6 +207,22 @@ def oracle(impl, o):
             fails.append({'key': 'bcast-error-type-' + r[1], 'what': f'broadcast_to_common_suffix raised {r[1]}: {r[2]}'})
         if r[0] != r2[0]:
             fails.append({'key': 'bcast-asymmetric-failure', 'what': 'broadcast succeeds in one argument order and fails in the other'})
+        try:
+            want_paths = [hp(p) for p in ref_lub_paths(a, b, kw['is_leaf'], kw['none_is_leaf'], kw['namespace'],
+                                                       bool(optree._C.is_dict_insertion_ordered(kw['namespace'])))]
+            conflict = False
+        except Conflict:
+            want_paths, conflict = None, True
+        except Exception:       # the reference does not cover this input (e.g. exotic custom node)
+            want_paths, conflict = None, None
+        if conflict is True and r[0] == 'ok':
+            fails.append({'key': 'bcast-accepts-conflict', 'what': 'the trees conflict at some node but broadcast_to_common_suffix succeeded',
+                          'got': repr(r[1])[:200]})
+        if conflict is False and r[0] != 'ok':
+            fails.append({'key': 'bcast-rejects-compatible', 'what': f'the trees have a common suffix but broadcast_to_common_suffix raised {r[1]}: {r[2]}'})
+        if conflict is False and r[0] == 'ok' and [hp(p) for p in r[1].paths()] != want_paths:
+            fails.append({'key': 'bcast-not-least', 'what': 'broadcast_to_common_suffix is not the least common suffix (leaf paths differ from the reference merge)',
+                          'got': repr(r[1])[:300], 'want_paths': repr(want_paths)[:300]})
         if r[0] == 'ok':
             c = r[1]
             if not (sa <= c) or not (sb <= c):
@@ -198,3 +322,12 @@ def oracle(impl, o):
         elif rm[1] != 'ValueError':
             fails.append({'key': 'bmap-error-type', 'what': f'tree_broadcast_map raised {rm[1]}: {rm[2]}'})
     return fails
+
+
+def ref_is_prefix(p, f, pred, nil, ns, insertion):
+    """is the structure of `p` a prefix of the structure of `f` (documented rules)?"""
+    try:
+        ref_lub_paths(p, f, pred, nil, ns, insertion, prefix=True)
+        return True
+    except Conflict:
+        return False
